@@ -18,7 +18,10 @@ import (
 	"github.com/foxboron/go-uefi/efi/attributes"
 	"github.com/foxboron/go-uefi/efi/signature"
 	"github.com/foxboron/go-uefi/efivar"
+	"github.com/foxboron/go-uefi/efivarfs"
+	"github.com/spf13/afero"
 
+	"verif/internal/fault"
 	"verif/internal/keys"
 	"verif/internal/mon"
 	"verif/internal/refauth2"
@@ -37,6 +40,7 @@ type c06Case struct {
 	PKind   string `json:"pkind"`
 	Key     int    `json:"key"`
 	Serial  int64  `json:"serial"`
+	Via     string `json:"via,omitempty"` // "" = SignEFIVariable; "WriteSignedUpdate" = through one long-lived Efivarfs handle, output taken from the file write
 }
 
 type c06Result struct {
@@ -99,6 +103,21 @@ func c06Cases(seed int64, n int) []c06Case {
 	for k, a := range []uint32{0x27, 0x67, 0x27, 0x07} {
 		out = append(out, c06Case{Name: "db", GUIDBE: dbg, Attrs: a, Payload: c12db(1, k).Bytes(), PKind: "sha256-lists", Key: k % 4, Serial: int64(900 + k)})
 	}
+	// names that differ from the well-known ones in case only are other variables: signed as given
+	pkg := fromLib(*efivar.PK.GUID).BE()
+	for k, nm := range []string{"Db", "DB", "dB", "DBX", "Dbx", "dbX"} {
+		out = append(out, c06Case{Name: nm, GUIDBE: dbg, Attrs: 0x27, Payload: c12db(1, 40+k).Bytes(), PKind: "sha256-lists", Key: k % 4, Serial: int64(920 + k)})
+	}
+	for k, nm := range []string{"pk", "Pk", "kek", "Kek", "KeK"} {
+		out = append(out, c06Case{Name: nm, GUIDBE: pkg, Attrs: 0x27, Payload: c12db(1, 50+k).Bytes(), PKind: "sha256-lists", Key: k % 4, Serial: int64(940 + k)})
+	}
+	// several updates of one variable in quick succession through one store handle
+	for k := 0; k < 4; k++ {
+		out = append(out, c06Case{Name: "db", GUIDBE: dbg, Attrs: 0x27, Payload: c12db(1+k%2, 60+k).Bytes(), PKind: "sha256-lists", Key: 0, Serial: 960, Via: "WriteSignedUpdate"})
+	}
+	for k := 0; k < 2; k++ {
+		out = append(out, c06Case{Name: "KEK", GUIDBE: pkg, Attrs: 0x67, Payload: c12db(1, 70+k).Bytes(), PKind: "sha256-lists", Key: 1, Serial: 961, Via: "WriteSignedUpdate"})
+	}
 	return out
 }
 
@@ -112,6 +131,8 @@ func c06ChildMain() {
 	zone, off := time.Now().Zone()
 	var kept []efivar.Marshallable
 	var results []*c06Result
+	var store *efivarfs.Efivarfs
+	var rec *fault.Fs
 	cases := c06Cases(mon.Seed(), n)
 	for ci, c := range cases {
 		g := toLib(refguid.FromBE(c.GUIDBE))
@@ -124,6 +145,43 @@ func c06ChildMain() {
 			// a signer that answers only after the next full second has begun (a slow token)
 			signer = slowSigner{k.Priv}
 			res.Slow = true
+		}
+		if c.Via == "WriteSignedUpdate" {
+			if store == nil {
+				rec = fault.NewFs(afero.NewMemMapFs())
+				fsys := efivarfs.NewFS()
+				fsys.SetFS(rec)
+				store = fsys.Open()
+			}
+			rec.Reset()
+			res.T0 = time.Now().Unix()
+			var err error
+			p := tryP(func() { err = store.WriteSignedUpdate(v, rawVal(c.Payload), signer, cert) })
+			res.T1 = time.Now().Unix()
+			switch {
+			case p != "":
+				res.Err = "panic: " + p
+			case err != nil:
+				res.Err = err.Error()
+			default:
+				var buf []byte
+				nw := 0
+				for _, ev := range rec.Events() {
+					if ev.Op == "Write" {
+						buf = ev.Data
+						nw++
+					}
+				}
+				want := []byte{byte(c.Attrs), byte(c.Attrs >> 8), byte(c.Attrs >> 16), byte(c.Attrs >> 24)}
+				if nw != 1 || len(buf) < 4 || !bytes.Equal(buf[:4], want) {
+					res.Err = fmt.Sprintf("WriteSignedUpdate made %d writes; buffer starts %x, want the attribute word %x", nw, buf[:min2(len(buf), 4)], want)
+				} else {
+					res.Out = append([]byte(nil), buf[4:]...)
+				}
+			}
+			kept = append(kept, nil)
+			results = append(results, res)
+			continue
 		}
 		res.T0 = time.Now().Unix()
 		var mm efivar.Marshallable
@@ -282,7 +340,9 @@ func checkC06(r *mon.Run) {
 				fail("payload", "bytes after the descriptor differ from the payload")
 				continue
 			}
-			if !bytes.Equal(res.Auth, res.Out[:n]) {
+			if c.Via != "" {
+				r.Count("cases_via_"+c.Via, 1)
+			} else if !bytes.Equal(res.Auth, res.Out[:n]) {
 				fail("descriptor-value", "the returned descriptor value does not marshal to the descriptor inside the output")
 				continue
 			}
@@ -389,8 +449,8 @@ func checkC06(r *mon.Run) {
 				r.Sample(map[string]any{"tz": tzName, "zone": res.Zone, "zone_offset_s": res.ZoneOff, "name": c.Name, "attrs": c.Attrs, "payload": c.PKind, "timestamp": fmt.Sprintf("%04d-%02d-%02d %02d:%02d:%02d", t.Year, t.Month, t.Day, t.Hour, t.Minute, t.Second), "dwLength": a.Cert.Length, "output_len": len(res.Out)})
 			}
 		}
-		if idx != per+4 {
-			r.Inconclusive("C06 child TZ=%s reported %d of %d cases: %s", tzName, idx, per+4, lastLines(stderr.String(), 2))
+		if want := len(c06Cases(r.Seed, per)); idx != want {
+			r.Inconclusive("C06 child TZ=%s reported %d of %d cases: %s", tzName, idx, want, lastLines(stderr.String(), 2))
 		}
 	}
 	r.Floor("cases_ok", int64(per*len(zones)*9/10))
